@@ -42,6 +42,17 @@ RULE = ('D-run case = (object configs, thread programs of acquire/critical-secti
         'release(force=True); model: CRel o true; only on objects no other thread uses, a fresh object takes its place) '
         'against a parked or polling contender.  A run in which the model sees a thread release a lock that ANOTHER '
         'thread holds is outside the contract and not judged for occupancy (kernel/table mismatches are always judged).  '
+        'L-run case (line-level layer) = the same gated threads, but EVERY source line of aiuti/filelock.py (sys.settrace '
+        'in the managed threads) and the construction of a threading.Lock/RLock are gates too, so a thread can be stopped '
+        'between any two statements: a victim thread is stopped after p decisions (every p, strided in quick), the other '
+        'threads\' whole API calls run before / while it is stopped / after it finished the interrupted call in every block '
+        'order and split; templates: two threads making the first use of one shared object, two objects on the path, an '
+        'object shared by two threads while a third holds the path through another object, reentrant nesting / forced '
+        'release against a contender.  Line-level decisions do not line up with the model\'s one-step-per-primitive '
+        'granularity: these runs are judged by the monitor (occupancy log as above, plus the end-of-run observation: once '
+        'all threads have finished and, by the log, nobody is inside, every object must report is_locked False and a fresh '
+        'non-blocking acquire by a probe must succeed); agree compares only schedule-independent facts (every reported '
+        'result is one the call can have in the model, along the program\'s skip structure).  '
         'F-run case = N free-running OS processes x rounds; mode forkhold = a holder that os.fork()s a do-nothing child '
         'while inside must stay the holder (a second object of its process is refused until it releases). '
         'non-trivial (decided in Coq) = at least two different threads got inside / all process rounds completed.')
@@ -50,7 +61,8 @@ EXHAUSTIVE_NOTE = ('all schedules with <= 2 (quick) / <= 3 (thorough) preemption
 ASSUMPTIONS = ['kernel flock(2) semantics (exclusive per open file description, dropped on close / process exit): assumed by '
                'the model, checked against the shim table on every syscall of the D-runs and by the multi-process F-runs',
                'threading.Lock/RLock are modelled primitives (gate.GLock/GRLock)',
-               'code between two gates touches only thread-local state or state protected by the thread lock']
+               'D-runs: code between two gates touches only thread-local state or state protected by the thread lock (this is what '
+               'the line-level L-runs test instead of assuming: there every statement boundary is a scheduling point)']
 TRUSTED = ['harness/gate.py, harness/flock_shims.py, harness/flock_drv.py, harness/flock_proc.py, coq/theories/Case_C02.v']
 ALLOWED_AXIOMS = []
 
@@ -123,12 +135,17 @@ def run_procs(case):
 def run_impl(case):
     if case['kind'] == 'procs':
         return run_procs(case)
+    if case['kind'] == 'line':
+        return D.run_line(case)
     return D.run_sched(case)
 
 
 def error_obs(case, o):
     if case['kind'] == 'procs':
         return dict(completed=0, collisions=0, errors=1)
+    if case['kind'] == 'line':
+        return dict(results=[[] for _ in case['progs']], occ=[], end='error', km=1, locked_end=[False] * len(case['objs']),
+                    probe=False, vsteps=[0] * len(case['progs']))
     return dict(trace=[], results=[[] for _ in case['progs']], occ=[], end='error', final=[99] * len(case['progs']), km=1)
 
 
@@ -140,12 +157,18 @@ def to_coq(case, o):
     results = C.coq_list([C.coq_list([D.RES_COQ.get(r, 'ROutOfFuel') for r in rs]) for rs in o['results']])
     occ = C.coq_list([f'({t}, {C.coq_bool(e)}, {n}, {C.coq_bool(l)})' for t, e, n, l in o['occ']])
     end = {'ok': 0, 'deadlock': 1, 'steps': 2}.get(o['end'], 9)
+    if case['kind'] == 'line':
+        return (f"CLine {D.objs_coq(case['objs'])} {progs} {results} {occ} {end} "
+                f"{C.coq_list([C.coq_bool(b) for b in o['locked_end']])} {C.coq_bool(o['probe'])} {min(o['km'], 99)}")
     return (f"CSched {D.objs_coq(case['objs'])} {D.faults_coq(case['faults'])} {progs} "
             f"{D.sched_trace_coq(o['trace'])} {results} {occ} {C.coq_list([str(x) for x in o['final']])} "
             f"{end} {min(o['km'], 99)}")
 
 
 def explain_exprs(case, o):
+    if case['kind'] == 'line':
+        lit = to_coq(case, o)
+        return [f'(Case_C02.agree ({lit}), Case_C02.ok ({lit}))']
     return [f'Case_C02.model_trace ({to_coq(case, o)})']
 
 
@@ -183,6 +206,17 @@ def corpus():
            [0, 0, 0, 0, 0, 0, 1, 1, 1, 1, 1, 0, 0, 0, 0, 0] + [1] * 10 + [0] * 10),
         # a holder that forks a do-nothing child keeps the lock (the child only inherits the descriptor)
         dict(kind='procs', mode='forkhold', nproc=1, rounds=5),
+        # line-level: thread 0 is stopped a few source lines into its first acquire() of a shared, so far unused
+        # object; thread 1 acquires it completely; thread 0 goes on (must be refused / wait, never a second holder)
+        mk_line([[False, -1]], [round_(0, 'blk'), round_(0, 'blk')], [['steps', 0, 8], ['call', 1], ['call', 0]]),
+        mk_line([[True, -1]], [round_(0, 'nb'), round_(0, 'with')], [['steps', 0, 9], ['call', 1], ['call', 0]]),
+        # line-level: thread 0's non-blocking acquire of object 0 fails behind object 1 and is stopped inside its
+        # clean-up; object 1 is released, thread 1 acquires and releases object 0, thread 0 finishes: afterwards nothing
+        # may be left locked and a fresh acquire must succeed
+        mk_line([[False, -1], [False, -1]], [round_(0, 'nb'), round_(0, 'blk'), round_(1, 'blk')],
+                [['call', 2], ['steps', 0, 34], ['call', 2], ['call', 1], ['call', 1], ['call', 0]]),
+        mk_line([[False, -1], [False, -1]], [round_(0, 'timed'), round_(0, 'blk'), round_(1, 'blk')],
+                [['call', 2], ['steps', 0, 60], ['call', 2], ['call', 1], ['call', 1], ['call', 0]]),
     ]
 
 
@@ -228,12 +262,98 @@ def gen_exhaustive(tier, seed):
         if len(out) > budget:
             step = len(out) / budget
             out = [out[int(i * step)] for i in range(budget)]
+    out += gen_line(tier, seed)
     out.append(dict(kind='procs', nproc=4, rounds=20))
     out.append(dict(kind='procs', mode='forkhold', nproc=1, rounds=10))
     if tier != 'quick':
         out.append(dict(kind='procs', nproc=16, rounds=50))
         out.append(dict(kind='procs', nproc=8, rounds=50))
     return out
+
+
+# ---- line-level layer: a victim thread is preempted between two SOURCE LINES of aiuti/filelock.py ------------
+
+def mk_line(cfg, progs, plan):
+    return dict(kind='line', objs=cfg, progs=progs, faults=[], plan=plan)
+
+
+def _line_templates(tier):
+    """(cfg, progs, victims, stride): deadlock-free, contract-respecting programs (each thread works on one object
+    at a time, releases what it took)."""
+    quick = tier == 'quick'
+    fls = ['blk', 'nb', 'timed'] if quick else ['blk', 'nb', 'timed', 'with', 'ctxnb']
+    out, k = [], 0
+    # A: two threads making the first use of ONE shared object; B: two objects on the path
+    for f0 in fls:
+        for f1 in fls:
+            k += 1
+            r = bool(k % 2)
+            g1 = 'with' if (quick and k % 3 == 0 and f1 == 'blk') else f1
+            out.append(([[r, -1]], [round_(0, f0), round_(0, g1)], [0, 1], 3 if quick else 1))
+            if not quick or k % 2:
+                out.append(([[r, -1], [not r, -1]], [round_(0, f0), round_(1, g1)], [0, 1], 4 if quick else 1))
+    # C: object 0 shared by two threads while a third thread holds the path through object 1
+    for f0 in (['nb', 'ctxnb', 'blk'] if quick else fls):      # (a sleeping victim cannot be single-stepped: timed flavours add little here)
+        for f1 in (['blk'] if quick else ['blk', 'nb']):
+            k += 1
+            out.append(([[bool(k % 2), -1], [False, -1]], [round_(0, f0), round_(0, f1), round_(1, 'blk')],
+                        [0] if quick else [0, 1, 2], 2 if quick else 1))
+    # D: reentrant nesting / forced release on a shared object against a contender
+    for shape in ('nested', 'force'):
+        for f1 in (['blk', 'nb'] if quick else fls):
+            out.append(([[True, -1]], [round_(0, 'blk', shape, 'nb'), round_(0, f1)], [0, 1], 4 if quick else 1))
+    return out
+
+
+def _block_orders(others, progs):
+    """Orders of the other threads' whole calls in which each thread's calls stay together (quick) — as
+    (list of thread indices, one entry per call)."""
+    import itertools
+    return [[t for t in perm for _ in progs[t]] for perm in itertools.permutations(others)]
+
+
+def _all_orders(others, progs):
+    seqs = set()
+
+    def rec(rem, acc):
+        if not any(rem.values()):
+            seqs.add(tuple(acc))
+            return
+        for t in sorted(rem):
+            if rem[t]:
+                rem[t] -= 1
+                rec(rem, acc + [t])
+                rem[t] += 1
+    rec({t: len(progs[t]) for t in others}, [])
+    return [list(x) for x in sorted(seqs)]
+
+
+def _line_job(args):
+    cfg, progs, v, pre, post, stride, off = args
+    # dry run: how many decisions does the victim take when it runs through after `pre`?
+    plan0 = [['call', t] for t in pre] + [['steps', v, 10 ** 6]]
+    n = D.run_line(mk_line(cfg, progs, plan0))['vsteps'][v]
+    out = []
+    for p in range(1 + off % stride, n + 1, stride):
+        plan = [['call', t] for t in pre] + [['steps', v, p]] + [['call', t] for t in post] + [['call', v]]
+        out.append(mk_line(cfg, progs, plan))
+    return out
+
+
+def gen_line(tier, seed):
+    jobs = []
+    for j, (cfg, progs, victims, stride) in enumerate(_line_templates(tier)):
+        for v in victims:
+            others = [t for t in range(len(progs)) if t != v]
+            orders = _block_orders(others, progs) if (tier == 'quick' or len(others) > 1) else _all_orders(others, progs)
+            for order in orders:
+                # the others' whole calls order[:cut] run before the victim starts, order[cut:cut2] while it is stopped,
+                # the rest after the victim has finished the call it was stopped in
+                for cut in range(len(order)):
+                    for cut2 in range(cut + 1, len(order) + 1):
+                        jobs.append((cfg, progs, v, order[:cut], order[cut:cut2], stride, seed + j + cut + cut2))
+    with mp.get_context('fork').Pool(C.NPROC) as pool:
+        return [c for cs in pool.map(_line_job, jobs, chunksize=4) for c in cs]
 
 
 def _rand_case(rnd, tier):
@@ -316,6 +436,12 @@ def distribution(cases, obs):
             d['proc_cases'] += 1
             d['proc_rounds'] += o.get('completed', 0) if isinstance(o, dict) else 0
             continue
+        if c['kind'] == 'line':
+            d['line_cases'] = d.get('line_cases', 0) + 1
+            if isinstance(o, dict) and 'vsteps' in o:
+                d['line_decisions'] = d.get('line_decisions', 0) + sum(o['vsteps'])
+                d['line_quiet_ends'] = d.get('line_quiet_ends', 0) + (o['end'] == 'ok')
+            continue
         d['sched_cases'] += 1
         d['threads2' if len(c['progs']) == 2 else 'threads3plus'] += 1
         d['one_object' if len(c['objs']) == 1 else 'two_objects'] += 1
@@ -347,7 +473,11 @@ LEVEL_TEXT = ('FileLock is modelled as a small-step machine (one step per gated 
               'kernel/table mismatch and, after every prefix, at most one thread inside, recomputed from the enter/exit events '
               'alone).  Tied to /repo by replaying, inside Coq, the exact schedules on which the real class was just '
               'run under gated threads (all schedules of 2 threads x 1 round up to a preemption bound, random beyond) and by '
-              'multi-process marker-file runs; program ops beyond acquire/release: del (drop the last reference), stray release by a '
+              'multi-process marker-file runs, and by line-level runs (every statement boundary a scheduling point) judged by the '
+              'monitor incl. an end-of-run probe (monitor_sound_line: model-free meaning of acceptance; quiescent_clean / '
+              'quiescent_acquirable: in the model, for every interleaving inside the contract, all threads idle with nobody inside '
+              'implies every object unlocked with counter 0, the kernel lock free and a fresh acquire successful - from the '
+              'exact-accounting invariant EX of FLockExact.v); program ops beyond acquire/release: del (drop the last reference), stray release by a '
               'non-holder (outside the contract: not judged), forkhold (holder forks a child that inherits the descriptor).')
 LEVEL_NOTE = ('trusted: Coq kernel + vm_compute; no axioms (every theorem "Closed under the global context"); kernel flock '
               'semantics = assumption of the model (validated by the shim table and the F-runs, not proved); threading.Lock/RLock '
